@@ -720,6 +720,9 @@ func Worker(args []string) {
 		if len(f) < 2 {
 			return BatchOut{HarnessErr: "empty batch"}
 		}
+		if f[0] == "S" {
+			return w.runStaging(f[1:])
+		}
 		return w.run(f[0], f[1:])
 	})
 	os.RemoveAll(scratch)
